@@ -137,7 +137,7 @@ func runC01(c *Ctx) {
 	c01Walk(c, a)
 	c01Conservation(c, a)
 	R.Rule("inorder-conservation", "symbolic in-order sequences: rebalance and the rotations return their receiver's sequence; add returns it with the value inserted once on the side the comparison selects; remove returns it minus the unlinked node / with the child's removal spliced in exactly on success; popLeftMost splits it into first and rest; Tree.Add/Remove install exactly that at the root", 10)
-	R.Rule("null-guard", "child and root pointers are dereferenced (method call, field read or write) only on paths that have tested them non-nil (inside a rotation the promoted child exists by rebalance's precondition)", 16)
+	R.Rule("null-guard", "child and root pointers are dereferenced (method call, field read or write) only on paths that have tested them non-nil (inside a rotation the promoted child exists by rebalance's precondition; methods that test their own receiver may be called on an untested pointer)", 12)
 	R.Rule("contains-table", "Contains: empty -> false, else the root's search; contains = find != nil; find returns the node equal to the value and gives up only where no eligible child is left", 3)
 	c01Inorder(c, a)
 	c01NullGuard(c, a)
@@ -671,6 +671,24 @@ func c01Descent(c *Ctx, a *avlAnchors) {
 	// find/remove go right only when left == nil or not-below (checked above by sign); nothing more to do.
 }
 
+// c01WalkerNilSafe: the node walker returns at once, without effects, for a nil receiver.
+func c01WalkerNilSafe(c *Ctx, name string) bool {
+	fi := c.P.Func(name)
+	if fi == nil {
+		return false
+	}
+	fp := c.An.PathsOf(fi.SSA)
+	for _, p := range fp.Paths {
+		for _, cd := range p.Conds {
+			r := cd.Rel()
+			if r.B != nil && r.B.IsNil() && isParam(r.A, 0) && r.Op == "==" && len(p.Events) == 0 {
+				return true
+			}
+		}
+	}
+	return false
+}
+
 func c01Walk(c *Ctx, a *avlAnchors) {
 	rule := "walk-order"
 	R := c.R
@@ -684,9 +702,37 @@ func c01Walk(c *Ctx, a *avlAnchors) {
 		recv := paramOf(fi, 0)
 		cb := paramOf(fi, 1)
 		ok, why := true, ""
+		// a walker may instead accept a nil receiver (empty subtree) and visit its children unguarded
+		selfNilSafe := false
+		recvNilOn := func(p *Path) string {
+			for _, cd := range p.Conds {
+				r := cd.Rel()
+				if r.B != nil && r.B.IsNil() && r.A.Key() == recv.Key() {
+					return r.Op
+				}
+			}
+			return ""
+		}
 		for _, p := range ps {
+			if recvNilOn(p) == "==" && len(p.Events) == 0 {
+				selfNilSafe = true
+			}
+		}
+		for _, p := range ps {
+			if recvNilOn(p) == "==" {
+				if len(p.Events) != 0 {
+					ok, why = false, "something happens for a nil receiver"
+				}
+				continue
+			}
+			if selfNilSafe && recvNilOn(p) != "!=" {
+				ok, why = false, "a path dereferences the receiver without the nil test"
+			}
 			seq := ""
 			leftNil, rightNil := "", ""
+			if selfNilSafe {
+				leftNil, rightNil = "!=", "!=" // unguarded recursion: the callee handles nil
+			}
 			for _, cd := range p.Conds {
 				r := cd.Rel()
 				if r.B != nil && r.B.IsNil() {
@@ -771,6 +817,10 @@ func c01Walk(c *Ctx, a *avlAnchors) {
 						if len(calls) != 0 {
 							ok, why = false, "an empty tree is walked"
 						}
+						continue
+					}
+					if rootNil == "" && !c01WalkerNilSafe(c, "avl.(*node).walk"+kind) {
+						ok, why = false, "the root is handed to a walker that does not accept nil, without a test"
 						continue
 					}
 					if len(calls) != 1 || calls[0].Name != "avl.(*node).walk"+kind || !isFieldLoad(calls[0].Args[0], a.tRoot, recv) || !isParam(calls[0].Args[1], 1) {
@@ -1029,8 +1079,8 @@ func c01Conservation(c *Ctx, a *avlAnchors) {
 			ok, why = false, "removing a leaf does not return nil"
 		}
 	}
-	if ok && found < 4 {
-		ok, why = false, fmt.Sprintf("only %d found-paths (leaf, left only, right only, two children expected)", found)
+	if ok && found < 1 {
+		ok, why = false, "no path on which the node holding the value is unlinked"
 	}
 	o := R.Decide(ok, rule, fi.Name, "found-paths", c.pos(fi), "leaf -> nil; one child -> that child; two children -> popped successor adopts left subtree and remainder", why)
 	if !ok {
